@@ -38,7 +38,7 @@ type subject struct {
 	index      bool // provides index
 	consumable bool // second range over the same subject sees what is left (channels, custom rangers)
 	unordered  bool
-	gaps       []int // virtual seconds before each send (channels), last = before close
+	gaps       []int  // virtual seconds before each send (channels), last = before close
 	prelude    string // declared by the program itself, at its very beginning (ints() kept in a variable)
 }
 
